@@ -116,5 +116,10 @@ def run(ctx):
     ctx.rule('C09.R7', 'dispatch passes data[0] and *data[1:]', floor=2)
     for fam in SA:
         r7_dispatch(ctx, fam)
+    ctx.rule('C08.R3', 'callbacks and the half-received packet do not '
+             'survive the transport (shared rule)', floor=10)
+    from .c08 import r3_reset
+    for fam in SA:
+        r3_reset(ctx, fam)
     ctx.assume('exactly-once over arbitrary packet sequences is reduced to '
                'one dispatch / one ACK per packet path')
